@@ -1,6 +1,7 @@
 //! Deterministic simulation world: one current-thread tokio runtime per case, paused clock,
 //! seeded `select!` order, mock transports with a timestamped wire log, scripted peer helpers.
 
+pub mod stream;
 pub mod wire;
 
 use bytes::Bytes;
